@@ -1,4 +1,4 @@
 From Coq Require Import Extraction ExtrOcamlBasic NArith.
 From DV Require Import Base.Outcome C20.Gen C20.Model.
 Extraction Language OCaml.
-Extraction "../build/ml/C20/model.ml" c20_run config_of config_default key_of_request.
+Extraction "../build/ml/C20/model.ml" c20_run config_of config_default key_of_request key_of_request_msg.
